@@ -422,12 +422,6 @@ package mpb
 //@              ==> dw(written(w)) == old(dw(written(w))) + allot(stat.RequestedWidth, stat.AvailableWidth)
 //@   ensures  fits: dw(written(w)) - old(dw(written(w))) <= max(0, stat.AvailableWidth)
 
-//@ iface BarFiller.Fill
-//@   params   w stat
-//@   requires 0 <= stat.AvailableWidth
-//@   modifies written(w), bFiller.tip, sFiller.count
-//@   ensures  fits: dw(written(w)) - old(dw(written(w))) <= max(0, stat.AvailableWidth) && dw(written(w)) >= old(dw(written(w)))
-
 //@ func (BarFillerFunc).Fill
 //@   props    C07
 //@   trusted
@@ -558,7 +552,7 @@ package mpb
 //@   props    C07 C12
 //@   requires buf != nil && stat.AvailableWidth >= 0
 //@   requires forall(i, 0, len(group), group[i] != nil)
-//@   modifies written(buf), pkgstate("decor"), sent(), recvd()
+//@   modifies written(buf), pkgstate("decor"), sent("chan int"), recvd("chan int")
 //@   loop 1   modifies written(buf)
 //@   loop 1   invariant stat.AvailableWidth >= 0 && dw(written(buf)) >= old(dw(written(buf)))
 //@   loop 1   invariant dw(written(buf)) - old(dw(written(buf))) <= old(stat.AvailableWidth) - stat.AvailableWidth
@@ -575,7 +569,7 @@ package mpb
 //@   requires drained: dw(written(s.buffers[0])) == 0 && dw(written(s.buffers[1])) == 0 && dw(written(s.buffers[2])) == 0
 //@   requires 0 <= stat.AvailableWidth && stat.AvailableWidth <= 1<<31
 //@   requires forall(i, 0, len(s.decorGroups[0]), s.decorGroups[0][i] != nil) && forall(i, 0, len(s.decorGroups[1]), s.decorGroups[1][i] != nil)
-//@   modifies written(s.buffers[0]), written(s.buffers[1]), written(s.buffers[2]), content(), pkgstate("decor"), sent(), recvd(), bFiller.tip, sFiller.count
+//@   modifies written(s.buffers[0]), written(s.buffers[1]), written(s.buffers[2]), content(), pkgstate("decor"), sent("chan int"), recvd("chan int"), bFiller.tip, sFiller.count
 //@   loop 1   modifies written(s.buffers[0]), written(s.buffers[1])
 //@   loop 1   invariant stat.AvailableWidth >= 0
 //@   loop 1   invariant dw(written(s.buffers[0])) + dw(written(s.buffers[1])) + stat.AvailableWidth <= in(stat).AvailableWidth
@@ -737,7 +731,7 @@ package mpb
 //@ func (*Bar).wSyncTable
 //@   props    C12 C02
 //@   requires b != nil
-//@   modifies sent(), recvd()
+//@   modifies sent(b.operateState), recvd()
 
 //@ func (heapManager).run$1
 //@   props    C14 C05
@@ -934,3 +928,42 @@ package mpb
 //@   requires s != nil && forall(i, 0, len(group), group[i] != nil) && forall(i, 0, len(s.decorGroups[0]), s.decorGroups[0][i] != nil)
 //@   modifies s.decorGroups
 //@   ensures  forall(i, 0, len(s.decorGroups[0]), s.decorGroups[0][i] != nil) && forall(i, 0, len(s.decorGroups[1]), s.decorGroups[1][i] != nil)
+
+// ---------------------------------------------------------------------------------------
+// the bar goroutine: one frame per render, terminal bookkeeping, shutdown (C03 C11 C14 C15)
+
+//@ func (bState).newStatistics
+//@   props    C03 C11
+//@   pure
+//@   ensures  result.AvailableWidth == tw && result.RequestedWidth == s.reqWidth && result.ID == s.id
+//@   ensures  result.Total == s.total && result.Current == s.current && result.Refill == s.refill
+//@   ensures  result.Completed == s.completed() && result.Aborted == s.aborted
+//@   ensures  exclusive@C11: !(result.Completed && result.Aborted)
+
+//@ functype bState.extender
+//@   params   stat rows
+//@   modifies pkgstate("decor"), content(), written(), bFiller.tip, sFiller.count, sent("chan int"), recvd("chan int")
+
+//@ iface BarFiller.Fill
+//@   params   w stat
+//@   requires 0 <= stat.AvailableWidth
+//@   modifies written(w), bFiller.tip, sFiller.count
+//@   ensures  fits: dw(written(w)) - old(dw(written(w))) <= max(0, stat.AvailableWidth) && dw(written(w)) >= old(dw(written(w)))
+
+// fn of (*Bar).render: exactly one frame is sent on every path (so flush is never left
+// waiting); a terminal bar stamps the frame with its count of terminal frames so far and
+// then counts this one (post-increment: the first terminal frame carries 0, the second 1, ...)
+//@ func (*Bar).render$1
+//@   props    C03 C15 C18 C11 C02
+//@   requires s != nil && b != nil && s.filler != nil && s.extender != nil && tw >= 0 && tw <= 1<<31 && s.shutdown < 1<<62
+//@   requires s.buffers[0] != nil && s.buffers[1] != nil && s.buffers[2] != nil
+//@   requires s.buffers[0] != s.buffers[1] && s.buffers[0] != s.buffers[2] && s.buffers[1] != s.buffers[2]
+//@   requires drained: dw(written(s.buffers[0])) == 0 && dw(written(s.buffers[1])) == 0 && dw(written(s.buffers[2])) == 0
+//@   requires forall(i, 0, len(s.decorGroups[0]), s.decorGroups[0][i] != nil) && forall(i, 0, len(s.decorGroups[1]), s.decorGroups[1][i] != nil)
+//@   ensures  oneframe@C15,C03: sent(b.frameCh) == old(sent(b.frameCh)) + 1 && lastSent(b.frameCh) != nil
+//@   ensures  terminal@C03,C18: lastSent(b.frameCh).err == nil && (s.aborted || s.completed())
+//@              ==> lastSent(b.frameCh).shutdown == old(s.shutdown) && s.shutdown == old(s.shutdown) + 1
+//@                  && lastSent(b.frameCh).rmOnComplete == s.rmOnComplete && lastSent(b.frameCh).noPop == s.noPop
+//@   ensures  running@C03: lastSent(b.frameCh).err == nil && !(s.aborted || s.completed())
+//@              ==> lastSent(b.frameCh).shutdown == 0 && s.shutdown == old(s.shutdown)
+//@   ensures  stable@C11: s.aborted == old(s.aborted) && s.total == old(s.total) && s.current == old(s.current) && s.triggerComplete == old(s.triggerComplete)
